@@ -98,8 +98,52 @@ fn one<X: Sx>(ctx: &Ctx, idx: u64, l: usize, hdr_class: usize, msg_class: usize,
     ctx.sample(json!({"case":sig_s,"sk":hx(&sk.to_bytes()),"header":hx(hdr.octets()),"n_messages":l,"signature":hx(&bytes),"verify":"Ok"}));
 }
 
+/// volume: thousands of distinct signatures through the 80-byte codec. Value shapes that occur once in a few hundred
+/// signatures (a zero byte at a given offset, bytes that cancel, a high bit pattern) are not reached by the per-case
+/// scenarios above.
+fn volume<X: Sx>(ctx: &Ctx, idx: u64, n: usize) {
+    let mut r = ctx.rng("c01v", idx);
+    let (sk, pk) = keypair::<X>(&mut r);
+    let msgs = gen_messages(&mut r, 2, 0);
+    let case = format!("{}/volume", name::<X>());
+    let mut byte_values_seen = [[false; 256]; 80];
+    for k in 0..n {
+        let hdr = (k as u64).to_be_bytes();
+        let Some(sig) = ctx.call("sign", &case, None, || Sig::<X>::sign(Some(&msgs), &sk, &pk, Some(&hdr))).value else {
+            ctx.violation("C01:sign-failed", json!({"case":case,"k":k}));
+            continue;
+        };
+        let bytes = sig.to_bytes();
+        for (i, b) in bytes.iter().enumerate() {
+            byte_values_seen[i][*b as usize] = true;
+        }
+        match ctx.call("from_bytes", &case, None, || Sig::<X>::from_bytes(&bytes)).value {
+            Some(s2) if s2 == sig && s2.to_bytes() == bytes => {
+                // the pairing check is the expensive part: every 8th decoded signature is verified as well
+                if k % 8 == 0 {
+                    let v = ctx.call("verify", &case, None, || s2.verify(&pk, Some(&msgs), Some(&hdr)));
+                    if !v.outcome.is_ok() {
+                        ctx.violation("C01:verify-after-roundtrip-failed", json!({"case":case,"sig":hx_full(&bytes),"sk":hx(&sk.to_bytes()),"header":hx(&hdr)}));
+                    }
+                }
+            }
+            Some(_) => ctx.violation("C01:roundtrip-differs", json!({"case":case,"sig":hx_full(&bytes)})),
+            None => ctx.violation("C01:decode-failed", json!({"case":case,"sig":hx_full(&bytes),"sk":hx(&sk.to_bytes()),"header":hx(&hdr),"messages":msgs_json(&msgs)})),
+        }
+        ctx.count("volume_signatures_roundtripped", 1);
+    }
+    let covered: usize = byte_values_seen[48..].iter().map(|row| row.iter().filter(|x| **x).count()).sum();
+    ctx.count("volume_distinct_(offset,byte)_pairs_in_e", covered as u64);
+    ctx.distinct(&case);
+}
+
 pub fn scenarios(ctx: &Ctx) -> Vec<Scenario> {
     let mut v = Vec::new();
+    let nvol = ctx.t(500usize, 4000usize);
+    for i in 0..4u64 {
+        v.push(scenario(format!("sha/volume{i}"), move |c| volume::<Sha>(c, i, nvol)));
+        v.push(scenario(format!("shake/volume{i}"), move |c| volume::<Shake>(c, i, nvol)));
+    }
     let mut idx = 0u64;
     let mut push = |v: &mut Vec<Scenario>, l: usize, h: usize, m: usize, big: usize| {
         let i = idx;
